@@ -487,7 +487,8 @@ def tevEv : TEv → Ev
 /-- the active timer of block `i` fires (`_timer_expired`): the clock is at its expiry, the timer
     is no longer active, the timed event is delivered through `event` -/
 def Circ.fire (c : Circ) (cal : Val → Option Bool) (i : Nat) : Option (Circ × Res) :=
-  if c.phase != .running then none else
+  -- (a timer that is due in the same batch of callbacks still fires after an abort)
+  if c.phase != .running && c.phase != .aborted then none else
   match c.blocks[i]? with
   | none => none
   | some b =>
